@@ -7,6 +7,7 @@ package tl
 
 import (
 	"context"
+	"fmt"
 	"runtime"
 	"sort"
 	"strings"
@@ -14,69 +15,273 @@ import (
 	"time"
 )
 
-// SiteTable maps a call site of the context (ctx.Done() or ctx.Err(), function kind, source line) to a stable key
-// "<kind><ordinal>" where the ordinal is the rank of the line among the distinct call-site lines of that
-// function that were reached WHILE THE CONTEXT WAS LIVE during the calibration run - i.e. the places where the
-// code under test asks "has the context ended?" before going on. Absolute line numbers never leave this table,
-// and it does not matter whether the code asks through `select { case <-ctx.Done(): ... default: }` or through
-// `if ctx.Err() != nil`. Calls made only after the context ended (`return ctx.Err()`) are not park points and get "<kind>?".
+// SiteTable identifies the places where the code under test consults its context (ctx.Done() or ctx.Err())
+// WITHOUT relying on function names or line order:
 //
-// Expected on the current code: Q0 (queue loop top, before the blocking receive), Q1 (after take+count),
-// Q2 (before the blocking offer), W0 (worker loop top), W1 (before the worker's blocking receive),
-// P0 (PushTask entry), P1 (PushTask blocking select).
+//   - the KIND of a call comes from the stack: a call that has a harness frame above it was made on behalf of an API
+//     call of the harness (PushTask: 'P'); otherwise it was made by one of the lane's own goroutines, named by its
+//     entry function (the outermost tasklane frame of that goroutine = whatever `go` statement in package tasklane
+//     started it). The entry function under which a gate task's Start() ran during calibration is the WORKER
+//     function ('W'); every other lane entry function is a queue/dispatcher function ('Q');
+//   - the SITE is (entry function, line of the immediate caller), as reached while the context was live during the
+//     calibration run; sites of a kind are numbered in FIRST-REACH order (protocol order: loop-top check, after
+//     take+count, blocking offer / loop top, blocking receive / entry check, blocking select);
+//   - the engine then PROBES what each site means (probe.go) and may relabel; keys handed out after that are the
+//     protocol labels Q0 Q1 Q2 W0 W1 P0 P1 the scenarios are written against.
 type SiteTable struct {
-	mu     sync.Mutex
-	lines  map[byte][]int
-	frozen bool
-	drift  int // calls on a live context from lines not in the frozen table
+	mu          sync.Mutex
+	recs        []*siteRec
+	byLoc       map[siteLoc]*siteRec
+	workerEntry string
+	entries     map[string]bool // lane entry functions seen
+	pushFns     map[string]bool // API functions seen under harness frames
+	seq         int
+	frozen      bool
+	drift       int
+	cache       map[[stackDepth]uintptr]string
 }
 
-func NewSiteTable() *SiteTable { return &SiteTable{lines: map[byte][]int{}} }
+const stackDepth = 24
 
-func (st *SiteTable) key(kind byte, line int, live bool) string {
+type siteLoc struct {
+	entry string
+	line  int
+	api   bool
+}
+
+type siteRec struct {
+	loc   siteLoc
+	first int
+	hits  int
+	kind  byte
+	label string
+}
+
+func NewSiteTable() *SiteTable {
+	return &SiteTable{byLoc: map[siteLoc]*siteRec{}, entries: map[string]bool{}, pushFns: map[string]bool{}, cache: map[[stackDepth]uintptr]string{}}
+}
+
+const lanePkg = "glb/tasklane."
+const harnessPkg = "verifharness/"
+
+// locate walks the stack of a context call: immediate caller's line, and whose call it is.
+func locate(pcs []uintptr) (loc siteLoc, ok bool) {
+	frames := runtime.CallersFrames(pcs)
+	line, prev := -1, ""
+	outer := ""
+	for {
+		fr, more := frames.Next()
+		if line < 0 {
+			line = fr.Line
+		}
+		if strings.Contains(fr.Function, harnessPkg) {
+			if prev == "" {
+				return loc, false // the harness itself asked
+			}
+			return siteLoc{entry: prev, line: line, api: true}, true
+		}
+		if strings.Contains(fr.Function, lanePkg) {
+			outer = fr.Function
+			prev = fr.Function
+		}
+		if !more {
+			break
+		}
+	}
+	if outer == "" {
+		return loc, false
+	}
+	return siteLoc{entry: outer, line: line}, true
+}
+
+// key returns the label of the call site described by pcs ("X?" = not a call of the code under test).
+func (st *SiteTable) key(pcs [stackDepth]uintptr, n int, live bool) string {
 	st.mu.Lock()
 	defer st.mu.Unlock()
-	ls := st.lines[kind]
-	i := sort.SearchInts(ls, line)
-	if i < len(ls) && ls[i] == line {
-		return string([]byte{kind, byte('0' + i)})
+	if st.frozen {
+		if k, ok := st.cache[pcs]; ok {
+			if live && k[1] == '?' && k[0] != 'X' {
+				st.drift++
+			}
+			return k
+		}
 	}
-	if st.frozen || !live {
+	loc, ok := locate(pcs[:n])
+	if !ok {
+		if st.frozen {
+			st.cache[pcs] = "X?"
+		}
+		return "X?"
+	}
+	if rec := st.byLoc[loc]; rec != nil {
+		if st.frozen {
+			st.cache[pcs] = rec.label
+			return rec.label
+		}
+		rec.hits++
+		return "C?" // calibrating: nobody parks, labels do not exist yet
+	}
+	if st.frozen {
+		k := string([]byte{st.kindOf(loc), '?'})
 		if live {
 			st.drift++
 		}
-		return string([]byte{kind, '?'})
+		st.cache[pcs] = k
+		return k
 	}
-	ls = append(ls, 0)
-	copy(ls[i+1:], ls[i:])
-	ls[i] = line
-	st.lines[kind] = ls
-	return string([]byte{kind, byte('0' + i)})
+	if loc.api {
+		st.pushFns[loc.entry] = true
+	} else {
+		st.entries[loc.entry] = true
+	}
+	if live {
+		st.seq++
+		rec := &siteRec{loc: loc, first: st.seq, hits: 1}
+		st.recs = append(st.recs, rec)
+		st.byLoc[loc] = rec
+	}
+	return "C?"
 }
 
+func (st *SiteTable) kindOf(loc siteLoc) byte {
+	switch {
+	case loc.api:
+		return 'P'
+	case loc.entry == st.workerEntry:
+		return 'W'
+	}
+	return 'Q'
+}
+
+// NoteWorker records the entry function of the goroutine that is running a task's Start() (calibration only).
+func (st *SiteTable) NoteWorker() {
+	st.mu.Lock()
+	frozen := st.frozen
+	st.mu.Unlock()
+	if frozen {
+		return
+	}
+	var pcs [64]uintptr
+	n := runtime.Callers(2, pcs[:])
+	frames := runtime.CallersFrames(pcs[:n])
+	outer := ""
+	for {
+		fr, more := frames.Next()
+		if strings.Contains(fr.Function, lanePkg) {
+			outer = fr.Function
+		}
+		if !more {
+			break
+		}
+	}
+	if outer != "" {
+		st.mu.Lock()
+		st.workerEntry = outer
+		st.mu.Unlock()
+	}
+}
+
+// Freeze ends the calibration: kinds are fixed, the sites of each kind get their first-reach ordinal as label.
 func (st *SiteTable) Freeze() {
 	st.mu.Lock()
+	defer st.mu.Unlock()
 	st.frozen = true
-	st.mu.Unlock()
+	sort.Slice(st.recs, func(i, j int) bool { return st.recs[i].first < st.recs[j].first })
+	ord := map[byte]int{}
+	for _, r := range st.recs {
+		r.kind = st.kindOf(r.loc)
+		r.label = string([]byte{r.kind, byte('0' + ord[r.kind])})
+		ord[r.kind]++
+	}
 }
 
-// Counts returns the number of distinct Done() sites per function kind (Q, W, P).
+// Swap exchanges the labels of two sites (a probe found that they mean each other's protocol point); when no site
+// carries label b it is a plain rename.
+func (st *SiteTable) Swap(a, b string) {
+	st.mu.Lock()
+	defer st.mu.Unlock()
+	for _, r := range st.recs {
+		switch r.label {
+		case a:
+			r.label = b
+		case b:
+			r.label = a
+		}
+	}
+	st.cache = map[[stackDepth]uintptr]string{}
+}
+
+// Labels lists the labels of one kind in first-reach order; recurring tells which of them were reached more often
+// than there are goroutines of that kind in the calibration lane (i.e. on every loop iteration, not once per goroutine).
+func (st *SiteTable) Labels(kind byte) (labels []string, recurring map[string]bool) {
+	st.mu.Lock()
+	defer st.mu.Unlock()
+	recurring = map[string]bool{}
+	for _, r := range st.recs {
+		if r.kind == kind {
+			labels = append(labels, r.label)
+			recurring[r.label] = r.hits > calibLanes
+		}
+	}
+	return
+}
+
+const calibLanes = 2
+
+// WorkerEntry is the name of the worker goroutines' entry function (for goroutine dumps).
+func (st *SiteTable) WorkerEntry() string {
+	st.mu.Lock()
+	defer st.mu.Unlock()
+	return st.workerEntry
+}
+
+// Describe is the discovered structure, for the evidence.
+func (st *SiteTable) Describe() map[string]any {
+	st.mu.Lock()
+	defer st.mu.Unlock()
+	short := func(f string) string {
+		if i := strings.LastIndex(f, "/"); i >= 0 {
+			f = f[i+1:]
+		}
+		return f
+	}
+	var sites []string
+	for _, r := range st.recs {
+		sites = append(sites, fmt.Sprintf("%s=%s#%d(hits %d)", r.label, short(r.loc.entry), r.first, r.hits))
+	}
+	var ent, api []string
+	for e := range st.entries {
+		ent = append(ent, short(e))
+	}
+	for e := range st.pushFns {
+		api = append(api, short(e))
+	}
+	sort.Strings(ent)
+	sort.Strings(api)
+	return map[string]any{"worker_entry": short(st.workerEntry), "lane_entries": ent, "api_functions_calling_the_context": api, "sites_in_first_reach_order": sites, "calls_from_unknown_sites": st.drift}
+}
+
+// Counts returns the number of live call sites per kind (Q, W, P).
 func (st *SiteTable) Counts() (q, w, p int) {
 	st.mu.Lock()
 	defer st.mu.Unlock()
-	return len(st.lines['Q']), len(st.lines['W']), len(st.lines['P'])
+	for _, r := range st.recs {
+		switch r.kind {
+		case 'Q':
+			q++
+		case 'W':
+			w++
+		case 'P':
+			p++
+		}
+	}
+	return
 }
 
 func (st *SiteTable) Drift() int {
 	st.mu.Lock()
 	defer st.mu.Unlock()
 	return st.drift
-}
-
-// Expected reports whether the site structure is the one the exact-state expectations were written for.
-func (st *SiteTable) Expected() bool {
-	q, w, p := st.Counts()
-	return q == 3 && w == 2 && p == 2
 }
 
 type parkedG struct {
@@ -142,42 +347,11 @@ func (g *Gate) Value(k any) any {
 	return nil
 }
 
-func classify(fn string) byte {
-	switch {
-	case strings.Contains(fn, "startQueue"):
-		return 'Q'
-	case strings.Contains(fn, "startWorker"):
-		return 'W'
-	case strings.Contains(fn, "PushTask"):
-		return 'P'
-	}
-	return 'X'
-}
-
 // intercept identifies the caller of Done()/Err(), runs the hook, and parks the caller if the site is armed.
 func (g *Gate) intercept() {
-	// the call site is the line of the immediate caller; the function kind is that of the nearest enclosing
-	// startQueue / startWorker / PushTask on the stack, so a helper extracted from one of them (nextTask(), ...)
-	// keeps its park points
-	var pcs [8]uintptr
-	key := "X?"
-	if n := runtime.Callers(3, pcs[:]); n > 0 {
-		frames := runtime.CallersFrames(pcs[:n])
-		line := -1
-		for {
-			fr, more := frames.Next()
-			if line < 0 {
-				line = fr.Line
-			}
-			if k := classify(fr.Function); k != 'X' {
-				key = g.st.key(k, line, g.ErrNow() == nil)
-				break
-			}
-			if !more || !strings.Contains(fr.Function, "glb/tasklane.") {
-				break
-			}
-		}
-	}
+	var pcs [stackDepth]uintptr
+	n := runtime.Callers(3, pcs[:])
+	key := g.st.key(pcs, n, g.ErrNow() == nil)
 	g.mu.Lock()
 	hook := g.hook
 	g.mu.Unlock()
